@@ -240,8 +240,9 @@ def build(case):
         def mm(self, *args, **kwargs):
             return bm.body((self.tag,) + args, kwargs)
 
-        KA = type("KA", (), {"m": deco_async(am), "__init__": lambda self, tag: setattr(self, "tag", tag)})
-        KS = type("KS", (), {"m": deco_sync(sm), "__init__": lambda self, tag: setattr(self, "tag", tag)})
+        # the instances are falsy (an empty container-like object): binding must not depend on their truth value
+        KA = type("KA", (), {"m": deco_async(am), "__init__": lambda self, tag: setattr(self, "tag", tag), "__len__": lambda self: 0})
+        KS = type("KS", (), {"m": deco_sync(sm), "__init__": lambda self, tag: setattr(self, "tag", tag), "__len__": lambda self: 0})
         ia, is_ = [KA(0), KA(1)], [KS(0), KS(1)]
         model = LRUModel(mm, eff_maxsize, eff_typed)
         return {"a": (lambda inst, a, k: ia[inst].m(*a, **k), lambda: ia[0].m.cache_info(), lambda: ia[1].m.cache_clear(),
